@@ -68,9 +68,9 @@ TESTED_NOT_PROVED = [
     "GML text rendering and the line tokenisation of GMLToNX.transform (glue): correspondence only, through an independent tokenizer",
     "smart_to_gml's RDKit half (rsmi_to_graph): the adapter feeds its output to the model",
     "explicit_hydrogen=True exports of graphs with implicit hydrogens; core=False (full) exports on ITS graphs outside its_ok; h_to_explicit "
-    "with a node subset / its=True beyond the total count: correspondence + oracle only",
+    "with its=True beyond the total count: correspondence + oracle only",
 ]
-LEVEL_TEXT = ("Machine-checked proof (Coq, 16 theorems, closed under the global context) over an executable model of the GML writer/reader at "
+LEVEL_TEXT = ("Machine-checked proof (Coq, 18 theorems, closed under the global context) over an executable model of the GML writer/reader at "
               "record level, of its_to_gml / gml_to_its / smart_to_gml / get_rc / its_decompose / ITSGraph at graph level, of h_to_explicit / "
               "h_to_implicit, and of the attribute copying of MolToGraph / GraphToMol: label round trip for every element symbol and every "
               "charge; ITS -> GML -> ITS restores atoms, both-side charges and (before, after) orders for every reaction-centre-shaped ITS, "
